@@ -401,6 +401,16 @@ theorem C05_gen_container_matches :
   decide +kernel
 
 open GoSandbox.Model.MountGen in
+/-- **no silent half-built root**: when a mask (or any step of the sequence) cannot be applied, the
+regenerated initFileSystem reports the failure — it does not return success with the remaining
+steps (later masks, the read-only remount of the root) skipped -/
+theorem C05_gen_container_failure_is_reported :
+    (match genContainerMaskFailure [.bind "/usr" "usr" true false, .tmpfs "w"] "/usr/secret" with
+     | .ok claimedSuccess => !claimedSuccess
+     | .error _ => false) = true := by
+  decide +kernel
+
+open GoSandbox.Model.MountGen in
 /-- the builder's flag words: binds are MS_BIND|MS_REC|MS_PRIVATE|MS_NOSUID (+MS_RDONLY when declared),
 tmpfs is NOSUID|NODEV|NOATIME, proc is NOSUID|NODEV|NOEXEC (+RDONLY unless writable) -/
 theorem C05_builder_flags :
